@@ -484,7 +484,22 @@ func TestC03(t *testing.T) {
 	rec.Extra("builtin_jq_definitions", len(jqDefs))
 
 	runTotal(t)
+	universeIntact(t, "totality")
 	runRep(t)
 	runModels(t)
+	universeIntact(t, "models")
 	runSync(t)
+	universeIntact(t, "sync")
+}
+
+// universeIntact: the shared universe values are passed to gojq by reference;
+// a builtin writing into its input would corrupt every later case.
+func universeIntact(t *testing.T, after string) {
+	fresh := gen.U60(true, true)
+	for i := range U {
+		if !univ.Same(U[i], fresh[i]) {
+			rec.Direct("total", map[string]any{"note": "universe value modified", "index": i}, "after the %s sweeps universe value #%d is %s, it was %s: a builtin wrote into its input", after, i, univ.Show(U[i]), univ.Show(fresh[i]))
+			U[i] = fresh[i]
+		}
+	}
 }
